@@ -865,6 +865,15 @@ impl SourceWithState {
                 break;
             }
         }
+        if same > 0 && same < target.len() && self.namespace[same..].contains(&target[same]) {
+            // the first component that would be written is shadowed by a namespace we are
+            // inside of (`exports::a::b` referring to `exports::b::c`): start at the root
+            self.src.push_str("::");
+            for i in target.iter() {
+                uwrite!(self.src, "{i}::");
+            }
+            return;
+        }
         if same == 0 && !target.is_empty() {
             // if the root namespace exists below the current namespace we need to start at root
             // Also ensure absolute qualification when crossing from exports to imports
